@@ -45,6 +45,8 @@ instance : Num (Dual β) where
   atan2 y x := ⟨Num.atan2 y.v x.v, (x.v * y.d - y.v * x.d) / (x.v * x.v + y.v * y.v)⟩
   decLt a b := inferInstanceAs (Decidable (a.v < b.v))
   decLe a b := inferInstanceAs (Decidable (a.v ≤ b.v))
+  -- torch.where: value of the chosen branch, gradient = mask · (grad a) + (1 - mask) · (grad b), both evaluated
+  select c a b := ⟨bif c then a.v else b.v, (bif c then 1 else 0) * a.d + (bif c then 0 else 1) * b.d⟩
 
 end Dual
 end Odak
